@@ -106,6 +106,9 @@ RareContainers ==
         DictOf(<<DKey(KA, BareBytes, FALSE), DKey(KB, BareDate, TRUE)>>)}
   \cup {AnyOf(<<SBytesA, SDate0>>), AnyOf(<<SDatetime0, SDate0, SUuid0, BareNone>>), AnyOf(<<BareBool, SFloatPrec>>),
         SAlias("T", SBytesA), SAlias("T", AnyOf(<<SDate0, BareNone>>))}
+  \* floats so large that scaling them to any precision overflows, pinned with a precision
+  \cup {[BareFloat EXCEPT !.value = Some(VFloat(200000)), !.precision = Some(VInt(2))],
+        TypedList([BareFloat EXCEPT !.value = Some(VFloat(200000)), !.precision = Some(VInt(1))])}
   \* keys whose text means something to str.format: errors below them are rendered with that path
   \cup {DictOf(<<DKey(VStr(<<123, 125>>), SInt1, FALSE), DKey(VStr(<<123, 105, 100, 125>>), SStrAB, TRUE)>>),
         TypedList(DictOf(<<DKey(VStr(<<123, 48, 125>>), SInt05, FALSE)>>))}
